@@ -200,7 +200,11 @@ def hashable_rows(
 
     # if array is 2D and smallish, we can try bitbanging
     # this is significantly faster than the custom dtype
-    if allow_int and len(as_int.shape) == 2 and as_int.shape[1] <= 4:
+    if allow_int and len(as_int.shape) == 2 and as_int.shape[1] == 1:
+        # a single column of integers is hashable as it is and the
+        # 64 bit offset used to pack rows would overflow an int64
+        return as_int.reshape(-1)
+    elif allow_int and len(as_int.shape) == 2 and as_int.shape[1] <= 4:
         # can we pack the whole row into a single 64 bit integer
         precision = int(np.floor(64 / as_int.shape[1]))
 
